@@ -206,6 +206,11 @@ func (r *Decoder) decodeElement(ectx evaluationContext, element jsonldinternal.E
 
 	elementObject := element.(*jsonldinternal.ExpandedObject)
 
+	if _, ok := elementObject.Members["@value"]; ok && ectx.ActiveProperty == nil {
+		// a value object with no property to hang it on (the property is a blank node): no statement
+		return nil
+	}
+
 	if ectx.ActiveProperty != nil {
 		// hacky to drop outer document container
 		ectx.CurrentContainer = nil
